@@ -11,6 +11,9 @@ import tempfile
 import time
 
 VERIF = os.path.dirname(os.path.dirname(os.path.abspath(__file__)))
+# where evidence/ and replays/ are written; overridden when a check is pointed at a scratch copy of
+# the repository (seeded-change experiments) so that the committed evidence is not overwritten
+OUT = os.environ.get("VERIF_OUT", VERIF)
 REPO = os.environ.get("GWF_REPO", "/repo")
 REPO_SRC = os.path.join(REPO, "src")
 NPROC = min(16, os.cpu_count() or 4)
@@ -166,7 +169,7 @@ def finish(ctx, level="model_checking"):
             known[f["id"]] = (f, known[f["id"]][1] + 1)
     for fid, (f, n) in sorted(known.items()):
         print("KNOWN-FINDING: property=%s %s [%s, %d case(s) this run]" % (f["property"], f["what"], fid, n))
-    rep_dir = os.path.join(VERIF, "replays")
+    rep_dir = os.path.join(OUT, "replays")
     os.makedirs(rep_dir, exist_ok=True)
     # group identical clause sets so a systematic failure prints a few lines, not thousands
     shown = {}
@@ -196,8 +199,8 @@ def finish(ctx, level="model_checking"):
         "violations": len(unexplained),
         "known_findings_hit": {k: n for k, (f, n) in known.items()},
     }
-    os.makedirs(os.path.join(VERIF, "evidence"), exist_ok=True)
-    with open(os.path.join(VERIF, "evidence", ctx.pid + ".json"), "w") as fh:
+    os.makedirs(os.path.join(OUT, "evidence"), exist_ok=True)
+    with open(os.path.join(OUT, "evidence", ctx.pid + ".json"), "w") as fh:
         json.dump(ev, fh, indent=1, sort_keys=True, default=str)
     print(
         "%s %s: %d design states, %d impl traces validated, %d violations, %.1fs"
